@@ -81,6 +81,53 @@ t("many_kwonly_params", "def g(q, *, " + ", ".join("k%d=%d" % (i, i) for i in ra
 # function - two different slots of the localsplus table carry one name
 t("comp_var_shadows_free", "def outer():\n    x = 1\n    z = 2\n    def f():\n        y = [x for x in range(3)]\n        return x, y, z\n    return f\nr = outer()()")
 t("comp_var_shadows_free_cell", "def outer():\n    x = 1\n    z = 2\n    def f(w):\n        y = {x: (lambda: w) for x in range(2)}\n        return x, sorted(y), z, w\n    return f\nr = outer()(5)")
+# wave 10 (own review of the language surface): constructs G did not have yet
+t("cf_for_else", "for i in a:\n    if i:\n        break\nelse:\n    x = 1\ny = 2")
+t("cf_try_else_finally", "try:\n    x = a\nexcept KeyError:\n    x = 1\nexcept (ValueError, TypeError) as e:\n    x = e\nelse:\n    x = 2\nfinally:\n    y = 3")
+t("cf_nested_ifexp", "x = (a if b else c) if (d or e) and not f else (g if h else (i if j else k))")
+t("cf_nested_boolop", "x = a and (b or c) and not (d and e or f) or g")
+t("cf_if_const", "if 0:\n    x = 1\nelif 1:\n    x = 2\nelse:\n    x = 3\nwhile 0:\n    y = 1\nif __debug__:\n    z = 1")
+t("cf_while_walrus", "while (n := len(a)) > 1:\n    a = a[1:]\nx = n", lo=(3, 8))
+t("cf_break_continue_finally", "for i in a:\n    try:\n        if i == 1:\n            continue\n        if i == 2:\n            break\n    finally:\n        x = i\n    for j in b:\n        if j:\n            break\n    else:\n        continue\n    break", lo=(3, 8))
+t("assign_chain_swap", "x = y = z = a\nx, y = y, x\nx, y, z = z, x, y\n(p, q), r = (x, y), z")
+t("assign_star_targets", "a0, *rest = a\n*init, last = a\nfirst, *mid, last = a\nfor u, *v in [a]:\n    x = v", lo=(3, 0))
+t("augassign_all", "x = a\nx += 1\nx -= 1\nx *= 2\nx //= 2\nx %= 5\nx **= 2\nx >>= 1\nx <<= 1\nx &= 7\nx ^= 1\nx |= 8\ny = 1.5\ny /= 2")
+t("augassign_subscr_attr", "d = {}\nd['k'] = 1\nd['k'] += 2\nd['k'] **= 2\nclass O(object):\n    pass\no = O()\no.v = 1\no.v += 1\nl = [1, 2, 3]\nl[0:2] += [4]\nl[::2] = [0, 0]")
+t("matmul", "class M(object):\n    def __matmul__(self, o):\n        return 1\n    def __imatmul__(self, o):\n        return self\nm = M()\nx = m @ m\nm @= m", lo=(3, 5))
+t("del_forms", "d = {1: 2}\nl = [1, 2, 3, 4]\ndel d[1]\ndel l[0]\ndel l[0:1]\nclass O(object):\n    pass\no = O()\no.v = 1\ndel o.v\nq = r = 1\ndel q, r")
+t("slices_ext", "l = list(range(10))\nx = l[1:2], l[:3], l[4:], l[:], l[::2], l[1:8:3], l[-1], l[::-1]\nclass S(object):\n    def __getitem__(self, k):\n        return k\ny = S()[1:2, ::3, ...]")
+t("call_unpack_many", "def g(*p, **k):\n    return len(p), sorted(k)\nx = g(1, *[2, 3], 4, *(5,), k1=1, **{'k2': 2}, **{'k3': 3})", lo=(3, 5))
+t("call_kw_16", "def g(**k):\n    return len(k)\nx = g(" + ", ".join("k%d=%d" % (i, i) for i in range(16)) + ")")
+t("call_py2_star", "def g(*p, **k):\n    return len(p), sorted(k)\nx = g(1, 2, k1=1, *[3], **{'k2': 2})")
+t("display_unpack", "x = [*a, 1, *a]\ny = (*a, 2)\nz = {*a, 3}\nw = {**{'p': 1}, 'q': 2, **{'r': 3}}", lo=(3, 5))
+t("dict_big_literal", "x = {" + ", ".join("'k%d': a" % i for i in range(40)) + "}")
+t("set_big_literal", "x = {" + ", ".join("a" for i in range(40)) + "}", lo=(2, 7))
+t("fstring_specs", "v = 3.14159\nw = 'w'\nx = f'{v!r:>10} {v:{w}^{8}.{2}} {v=} {v!s} {v!a} {{lit}} {w + w!r}'", lo=(3, 8))
+t("fstring_concat", "v = 1\nx = f'{v}' 'plain' f'{v:{v}}' f'{v + 1}{v}'", lo=(3, 6))
+t("str_concat_fold", "x = 'a' 'b' + 'c' * 3\ny = (1 + 2) * 3 - 4 // 2\nz = -(-5)\nw = not True\nc = 1 + 2j\nt_ = (1, 2) + (3,)\ns_ = 'abc'[1]")
+t("assert_msg", "try:\n    assert a, 'message %s' % (a,)\nexcept AssertionError as e:\n    x = str(e)")
+t("lambda_defaults", "f = lambda p, q=1, *r, **s: (p, q, r, s)\ng = lambda: (lambda: a)()\nx = f(1, 2, 3, k=4), g()")
+t("lambda_kwonly", "f = lambda p, *, q=1, r: (p, q, r)\nx = f(1, r=2)", lo=(3, 0))
+t("gen_yield_expr", "def g():\n    got = yield 1\n    got2 = (yield got) or 5\n    yield got2\n    return\nit = g()\nx = [next(it), it.send('s'), it.send(None)]")
+t("gen_return_value", "def g():\n    yield 1\n    return 7\ndef h():\n    r = yield from g()\n    yield r\nx = list(h())", lo=(3, 3))
+t("gen_finally_return", "def g():\n    try:\n        yield 1\n        return 2\n    finally:\n        x = 3\nx = list(g())", lo=(3, 3))
+t("gen_lambda_yield", "f = lambda: (yield)\nx = f", lo=(3, 0))
+t("async_comprehensive", "import asyncio\nclass CM(object):\n    async def __aenter__(self):\n        return self\n    async def __aexit__(self, *e):\n        return False\nasync def agen():\n    yield 1\n    yield 2\nasync def main():\n    out = []\n    async with CM() as c1, CM() as c2:\n        async for v in agen():\n            out.append(v)\n        else:\n            out.append(0)\n    try:\n        await asyncio.sleep(0)\n    finally:\n        out.append(await asyncio.sleep(0, 9))\n    return out + [w async for w in agen()]\nx = asyncio.run(main())", lo=(3, 7))
+t("with_tuple_target", "class CM(object):\n    def __enter__(self):\n        return (1, 2)\n    def __exit__(self, *e):\n        return True\nwith CM() as (p, q):\n    x = p + q\n    raise ValueError()\ny = 1")
+t("with_parenthesized", "class CM(object):\n    def __enter__(self):\n        return 1\n    def __exit__(self, *e):\n        return False\nwith (CM() as p, CM() as q,):\n    x = p + q", lo=(3, 10))
+t("cls_nested_closure", "def mk(v):\n    class K(object):\n        attr = v\n        def m(self):\n            return v, __class__\n        class Inner(object):\n            w = v\n    return K\nx = mk(1)().m()[0]", lo=(3, 0))
+t("cls_decorated_kw", "def deco(c):\n    return c\nclass Meta(type):\n    def __new__(m, n, b, d, **kw):\n        return type.__new__(m, n, b, d)\n    def __init__(c, n, b, d, **kw):\n        pass\n@deco\nclass K(object, metaclass=Meta, flag=True):\n    pass\nx = K", lo=(3, 0))
+t("global_in_class_fn", "def f():\n    global gg\n    gg = 1\n    class K(object):\n        global hh\n        hh = 2\n    return gg\nx = f()")
+t("import_in_try", "try:\n    import no_such_module_xyz as m\nexcept ImportError:\n    m = None\ntry:\n    from os import path as p, sep\n    from os.path import (join, split)\nexcept ImportError:\n    p = None")
+t("match_many", "def f(v):\n    match v:\n        case 0 | 1:\n            return 'small'\n        case [x, y, *rest] if x:\n            return rest\n        case {'k': k, **others}:\n            return others\n        case (1, 2) as pair:\n            return pair\n        case str(s) | bytes(s):\n            return s\n        case None:\n            return 0\n        case _:\n            return v\nx = [f(0), f([1, 2, 3]), f({'k': 1, 'j': 2}), f('s'), f(None), f(5.5)]", lo=(3, 10))
+t("star_subscript", "class S(object):\n    def __getitem__(self, k):\n        return k\nx = S()[*a, 1]", lo=(3, 11))
+t("except_star_return", "def f():\n    try:\n        raise ExceptionGroup('g', [ValueError(1), TypeError(2)])\n    except* ValueError as e:\n        x = e\n    except* TypeError:\n        x = 2\n    else:\n        x = 3\n    finally:\n        y = 4\n    return x\nx = f()", lo=(3, 11))
+t("type_param_bounds", "def f[T: int, *Ts, **P](a: T) -> T:\n    return a\nclass C[T = int]:\n    pass\ntype A[T: (int, str)] = list[T]\nx = f(1)", lo=(3, 13))
+t("annotations_module", "x: int = 1\ny: 'str'\nclass K(object):\n    z: int = 2\n    w: list\ndef f(a: int = 1, *b: str, c: float = 2.0, **d: bytes) -> None:\n    v: int = a\n    return v", lo=(3, 6))
+t("print_py2_stmt", "import sys\nprint >>sys.stdout, 'a', 'b',\nprint\nprint 'c' % ()", hi=(2, 7))
+t("exec_backtick_py2", "exec 'q = 1' in {}\nx = `a`\ntry:\n    raise ValueError, 'v'\nexcept ValueError, e:\n    y = e\nz = 1 <> 2\nw = 0777L", hi=(2, 7))
+t("dict_set_comp_py27", "x = {i: i * 2 for i in a}\ny = {i for i in a}", lo=(2, 7))
+t("long_if_chain_far", "\n".join("%s a == %d:\n    x = [a, a, a, a, a, a, a, a, a, a, a, a]" % ("if" if i == 0 else "elif", i) for i in range(30)) + "\nelse:\n    x = 0")
 t("const_equal_distinct", "x = (0.0, -0.0, 1, 1.0, True, (1, 2), (1.0, 2.0), 0, False, 0j)")
 
 # ---- functions --------------------------------------------------------------
